@@ -94,6 +94,12 @@ def safe_call(I, obj, meth, args):
     if 'raise reached' in str(e):
       raise Raised(str(e))
     raise
+  except ValueError as e:
+    # a shape error of an array primitive (e.g. an update larger than its operand): JAX raises at trace time,
+    # i.e. the operation is refused with an exception
+    if 'broadcast' in str(e) or 'shape' in str(e):
+      raise Raised('array shape error: %s' % e)
+    raise
 
 
 def host_get(q):
@@ -363,8 +369,23 @@ def guard_order(U, rep):
               where=f.where(), construct='%s(buffer_state, ..., %s) precedes %s' % (guard, shards, work))
 
 
+class _Hints:
+  """guard_order is a source-shape rule; what it protects (refusals, size bookkeeping per shard) is decided on
+  behaviour by the exploration below through the public insert / sample entry points.  Its disagreement is a note."""
+
+  def __init__(self, rep):
+    self.rep = rep
+
+  def check(self, cond, rule, key, message, **k):
+    if not cond:
+      self.rep.note('hint %s [%s]: %s' % (rule, key, message() if callable(message) else message))
+
+
 def run(U, rep, tier):
-  guard_order(U, rep)
+  try:
+    guard_order(U, _Hints(rep))
+  except AnalysisError as e:
+    rep.note('shape hints unavailable: %s' % e)
   if tier == 'quick':
     grid = [(1, 1), (2, 1), (3, 2), (4, 2), (4, 3)]
   else:
